@@ -1461,10 +1461,12 @@ func malformedStream(cfg *Config) *hx.Stats {
 	}
 
 	caseNo := 0
+	var lastOutcome decOutcome
 	one := func(id atree.SlabID, data []byte, how string) string {
 		caseNo++
 		e.step = caseNo
 		o := e.emitDEC(id, data)
+		lastOutcome = o
 		st.Hit("mut:" + how)
 		if caseNo%4 == 0 || len(data) < 4 {
 			e.emitHDR(data)
@@ -1553,6 +1555,21 @@ func malformedStream(cfg *Config) *hx.Stats {
 		}
 		if len(devs) == 0 {
 			st.Hit("gram:dev:none:" + class)
+		}
+		// the generator's own verdict (grammarlabel.go)
+		switch label := gramLabel(devs); {
+		case label == "valid":
+			st.Hit("gram:label:valid:" + class)
+			if class != "ok" {
+				e.violation("C07", fmt.Sprintf("DecodeSlab rejects (%s %s) a %s register the slab grammar built from valid and boundary-valid fields only (deviations %v): %s",
+					class, lastOutcome.detail, regKind(data), devs, hex.EncodeToString(data)))
+			}
+		case label != "":
+			st.Hit("gram:label:invalid:" + class)
+			if class == "ok" {
+				e.violation("C07", fmt.Sprintf("DecodeSlab accepts a %s register with one invalid field (%s: %s; every other field valid) as %s: %s",
+					regKind(data), devs[0], gramInvalidDevs[devs[0]], lastOutcome.dump, hex.EncodeToString(data)))
+			}
 		}
 		for _, d := range devs {
 			st.Hit("gram:dev:" + d + ":" + class)
